@@ -19,7 +19,14 @@ import (
 
 type RNG struct{ s uint64 }
 
-func NewRNG(seed uint64) *RNG { return &RNG{s: seed*0x9E3779B97F4A7C15 + 0x1234567} }
+// NewRNG mixes the seed first, so that consecutive seeds give unrelated streams.
+func NewRNG(seed uint64) *RNG {
+	z := seed + 0x632BE59BD9B4E019
+	z = (z ^ (z >> 30)) * 0xBF58476D1CE4E5B9
+	z = (z ^ (z >> 27)) * 0x94D049BB133111EB
+	z ^= z >> 31
+	return &RNG{s: z*0xD6E8FEB86659FD93 + 0x1234567}
+}
 
 func (r *RNG) U64() uint64 {
 	r.s += 0x9E3779B97F4A7C15
